@@ -36,7 +36,7 @@ Print Assumptions C03_ref_is_the_codes_reference.
 
 (* the code as it is: FALSE (finding B).  An i64 key: `17 03 <8 bytes> 01 00 0c 00 <4 bytes>` *)
 Definition witness_B : bytes := [23;3; 0;0;0;0;0;0;0;0; 1;0; 12;0; 1;0;0;0].
-Theorem C03_fast_eq_ref_refuted : exists bytes, obs (parse_opt bytes) <> obs (parse_ref bytes).
+Theorem C03_fast_eq_ref_refuted : exists bytes, obs (parse false true bytes) <> obs (parse_ref bytes).
 Proof. exists witness_B. vm_compute. discriminate. Qed.
 Print Assumptions C03_fast_eq_ref_refuted.
 
@@ -47,12 +47,19 @@ Proof. vm_compute. reflexivity. Qed.
 (* the code as it is, outside the known class: the I64 id never is the next lexeme in key position
    (state Key) or as first element of a container (state OpenFirst) along the run *)
 Theorem C03_fast_eq_ref_no_i64 : forall bytes, i64_never_in_key_position bytes ->
-  obs (parse_opt bytes) = obs (parse_ref bytes).
+  obs (parse false true bytes) = obs (parse_ref bytes).
 Proof. exact fast_eq_ref_no_i64. Qed.
 Print Assumptions C03_fast_eq_ref_no_i64.
 
 Example C03_no_i64_nonvacuous : i64_never_in_key_position [130;45; 1;0; 12;0; 89;0;0;0].
 Proof. exact i64_never_example. Qed.
+
+(* the parser the correspondence check runs ([parse_opt]: fx read off the three tests in tape.rs by
+   tools/gen_tables.py): unconditional as soon as the source excludes I64 *)
+Theorem C03_code_fast_eq_ref : fast_path_excludes_i64 = true ->
+  forall bytes, obs (parse_opt bytes) = obs (parse_ref bytes).
+Proof. intros E bytes. unfold parse_opt, parse_ref. rewrite E, <- (C03_ref_is_the_codes_reference true). apply fast_eq_ref_fixed. Qed.
+Print Assumptions C03_code_fast_eq_ref.
 
 (* J4: next_state (state*2 - (state & 2), transmute) never leaves the enum, on the generated discriminants *)
 Theorem C03_next_state_total : forall s, next_state s = Ok (next_tbl s).
